@@ -1,4 +1,5 @@
 """Shared rules over the sharded track store (used by C05, C09, C10)."""
+from linear import destroyed
 from lib import (Cond, ExprBuilder, closure_args_of_call, count_on_paths, necessary_edges, path_conditions,
                  reachable_bodies, upvar_expr)
 from mir import norm
@@ -439,3 +440,213 @@ def rule_consumers(ctx, R):
             ctx.check(okw, R, b, it + ':iterator_count=count', '', 'the iterator does not start with iterator_count = '
                       'count (%r)' % (aggs[0].args if aggs else e))
     return n
+
+
+SHORT_CIRCUIT = ('map_while', 'take_while', 'skip_while', 'take', 'skip', 'step_by', 'scan', 'find', 'find_map',
+                 'nth', 'last', 'next', 'dedup', 'dedup_by', 'dedup_by_key', 'unique', 'unique_by', 'rev_take',
+                 'filter', 'peekable', 'fuse', 'while_some', 'take_while_ref', 'take_while_inclusive', 'chunks',
+                 'tuple_windows', 'step')
+
+
+def rule_track_distances(ctx, R):
+    """Track::distances: metric reached only for compatible attributes; one result per observation pair for which the
+    metric yields a value (full cartesian product, no short-circuiting adaptor); query / result wiring"""
+    F = ctx.F
+    b = ctx.anchor(R, 'track::Track::distances')
+    if b is None:
+        return 0
+    n = 0
+    eb = ExprBuilder(b)
+    from lib import all_closures
+    from restore import exits
+    # (a) compatibility guard
+    comp = b.find_calls('track::TrackAttributes::compatible')
+    n += 1
+    if not comp:
+        ctx.fail(R, b, 'compatible-guard', 'Track::distances no longer consults TrackAttributes::compatible')
+    else:
+        e = eb.arg(comp[0], 0).strip(), eb.arg(comp[0], 1).strip()
+        okargs = e[0].kind == 'place' and e[1].kind == 'place' and e[0].fields == ('attributes',) and e[1].fields == (
+            'attributes',) and {e[0].root, e[1].root} == {('param', 1), ('param', 2)}
+        ctx.check(okargs, R, b, 'compatible(self.attributes, other.attributes)', '%r, %r' % e,
+                  'compatible() is evaluated on %r and %r, not on the attributes of the two tracks' % e)
+    for cb in all_closures(F, b):
+        for mc in cb.find_calls('track::ObservationMetric::metric'):
+            # the closure is constructed only on the compatible side
+            for bb, si, dp, ops, lhs in closure_aggregates_(b):
+                if dp != cb.npath:
+                    continue
+                conds = path_conditions(b, bb)
+                ok = any(k.kind == 'bool' and k.truth is True and k.expr.kind == 'call' and k.expr.name.endswith(
+                    'TrackAttributes::compatible') for k in conds)
+                n += 1
+                ctx.check(ok, R, b, 'metric-only-when-compatible', 'closure built on the compatible()==true side',
+                          'the metric is reachable although compatible() is false or was not consulted on that path',
+                          mc.ln)
+            # MetricQuery wiring
+            ebc = ExprBuilder(cb)
+            q = ebc.arg(mc, 1)
+            mq = [x for x in q.walk() if x.kind == 'agg' and x.name.endswith('MetricQuery::MetricQuery')]
+            n += 1
+            okq = False
+            detail = repr(q)[:200]
+            if mq:
+                m = dict(zip(mq[0].extra['fields'], mq[0].args))
+
+                def up(e):
+                    e = e.strip()
+                    if e.kind == 'call' and e.name.endswith('get_attributes'):
+                        e = e.args[0].strip()
+                    if e.kind == 'place' and e.root[0] == 'upvar':
+                        pb, pe = upvar_expr_(F, cb, e.root[1])
+                        return pe.strip() if pe is not None else e
+                    return e
+                ca, ta_ = up(m['candidate_attrs']), up(m['track_attrs'])
+                co, to = m['candidate_observation'].strip(), m['track_observation'].strip()
+                okq = ca.kind == 'place' and ca.root == ('param', 1) and ta_.kind == 'place' and ta_.root == (
+                    'param', 2) and co.kind == 'place' and to.kind == 'place' and co.fields[-1:] == ('0',) and \
+                    to.fields[-1:] == ('1',)
+                detail = 'candidate=(%r,%r) track=(%r,%r)' % (ca, co, ta_, to)
+            ctx.check(okq, R, cb, 'metric-query-wiring', detail,
+                      'the metric query does not pair (self attributes, left observation) as candidate with (other '
+                      'attributes, right observation) as track: %s' % detail, mc.ln)
+            # result wiring
+            for d in cb.defs().get(0, []):
+                if d[0] == 'assign' and d[3]['rv']['k'] == 'agg' and d[3]['rv'].get('v') == 'Some':
+                    e = ebc._rvalue(d[3]['rv'], (), 0, (d[1], d[2]))
+                    ok_ = [x for x in e.walk() if x.kind == 'agg' and x.name.endswith('ObservationMetricOk::ObservationMetricOk')]
+                    n += 1
+                    okr = False
+                    if ok_:
+                        m = dict(zip(ok_[0].extra['fields'], ok_[0].args))
+                        am, fd = m['attribute_metric'], m['feature_distance']
+                        okr = m['from'].has_field('track_id') and m['to'].has_field('track_id') and \
+                            repr(m['from']) != repr(m['to']) and am.has_call('metric') and fd.has_call('metric') and \
+                            (am.proj[-1:] == ('0',) or am.fields[-1:] == ('0',)) and \
+                            (fd.proj[-1:] == ('1',) or fd.fields[-1:] == ('1',))
+                    ctx.check(okr, R, cb, 'result-wiring', repr(ok_[0])[:200] if ok_ else '',
+                              'the distance record is not built as {from: self.track_id, to: other.track_id, '
+                              'attribute_metric: metric().0, feature_distance: metric().1}: %s' % (
+                                  repr(ok_[0])[:300] if ok_ else repr(e)[:300]), d[3]['ln'])
+    # (b) full product, no short-circuit
+    for bb, kind, desc in exits(b):
+        if kind != 'ok':
+            continue
+        d = [x for x in b.defs().get(0, []) if x[1] == bb][0]
+        e = eb._rvalue(d[3]['rv'], (), 0, (d[1], d[2]))
+        names = [x.name.rsplit('::', 1)[-1] for x in e.walk() if x.kind == 'call']
+        bad = [nm for nm in names if nm in SHORT_CIRCUIT]
+        n += 1
+        prod = e.calls('cartesian_product')
+        okp = False
+        if prod:
+            l, r = prod[0].args[0], prod[0].args[1]
+            okp = l.has_place(root=('param', 1), field='observations') and r.has_place(root=('param', 2),
+                                                                                       field='observations')
+        ctx.check(not bad and (okp or not prod), R, b, 'one-result-per-observation-pair',
+                  'adaptors: %s' % [nm for nm in names if nm not in ('iter', 'get', 'deref')],
+                  'the pair stream of Track::distances goes through %s: a pair for which the metric yields a value '
+                  'can be dropped (%s)' % (bad or 'a product that is not self.observations x other.observations',
+                                            [nm for nm in names if nm not in ('iter', 'get', 'deref')]), d[3]['ln'])
+        if not prod:
+            ctx.note(R, 'Track::distances: pair enumeration not recognised as cartesian_product; product clause not armed')
+        # both observation lists are looked up under the requested class
+        gets = [x for x in e.walk() if x.kind == 'call' and x.name.endswith('HashMap::get')]
+        okc = bool(gets) and all(g.args[1].strip().kind == 'place' and g.args[1].strip().root == ('param', 3) for g in
+                                 gets)
+        n += 1
+        ctx.check(okc, R, b, 'both-sides-use-requested-class', '', 'observations are not looked up under the '
+                  'requested feature class on both sides')
+    # (c) error kinds
+    e0 = eb.place(0, ())
+    kinds = {x.name.split('::')[-1] for x in e0.walk() if x.kind == 'agg' and x.name.startswith('Errors::')}
+    n += 1
+    ctx.check({'IncompatibleAttributes', 'ObservationForClassNotFound'} <= kinds, R, b, 'error-kinds', str(sorted(kinds)),
+              'Track::distances no longer reports IncompatibleAttributes / ObservationForClassNotFound (%s)' %
+              sorted(kinds))
+    return n
+
+
+def closure_aggregates_(body):
+    from lib import closure_aggregates
+    return closure_aggregates(body)
+
+
+def upvar_expr_(F, cb, k):
+    from lib import upvar_expr
+    return upvar_expr(F, cb, k)
+
+
+def rule_merge_owned(ctx, R):
+    ctx.rule(R, 'merge_owned: the fetched source is returned (only on success, only when asked) or re-added on every '
+                'normal path (P7 linear)')
+    from lib import every_path_passes
+    b = ctx.anchor(R, STORE + '::merge_owned')
+    if b is None:
+        return
+    dd = destroyed(b, r'^(std::option::Option<)?track::Track<')
+    ctx.check(not dd, R, b, 'source-never-destroyed', 'no normal-path drop of the fetched source track',
+              'the fetched source track can be destroyed on a normal path (%s): it is neither returned nor put back '
+              'into the store' % ['bb%d %s at %s' % (x[0], x[3], x[4]) for x in dd],
+              dd[0][4] if dd else '')
+    # a by-value capture hands the track's fate to the callee (a combinator drops an uncalled closure)
+    caps = []
+    for bb, si, dp, ops, lhs in closure_aggregates_(b):
+        for op in ops:
+            if op['k'] == 'move' and not op['pl']['p'] and b.locals[op['pl']['l']].startswith('track::Track<'):
+                caps.append((dp, b.blocks[bb]['st'][si]['ln']))
+    ctx.check(not caps, R, b, 'source-not-moved-into-closure', '',
+              'the fetched source track is moved into a closure (%s): if the combinator it is passed to does not '
+              'call the closure (e.g. Result::map on Err) the track is destroyed' % caps, caps[0][1] if caps else '')
+    eb = ExprBuilder(b)
+    adds = b.find_calls(STORE + '::add_track')
+    me = b.find_calls(STORE + '::merge_external')
+    if len(me) != 1:
+        ctx.fail(R, b, 'merge_external-call', 'ANCHOR-MISSING: merge_owned calls merge_external %d times' % len(me))
+        return
+    me = me[0]
+    n = 0
+    for d in b.defs().get(0, []):
+        bb = d[1]
+        if bb not in b.reach_from(me.bb) or bb == me.bb and d[0] != 'assign':
+            continue
+        e = eb._rvalue(d[3]['rv'], (), 0, (d[1], d[2])) if d[0] == 'assign' else eb._call(d[2], (), 0)
+        hands_out = False
+        for x in e.walk():
+            if x.kind == 'agg' and x.name.endswith('Option::Some') and x.args:
+                v = x.args[0].strip()
+                if v.has_call('pop') or v.has_call('fetch_tracks'):
+                    hands_out = True
+        conds = path_conditions(b, bb)
+        n += 1
+        site = d[3]['ln'] if d[0] == 'assign' else d[2].ln
+        if hands_out:
+            okc = any(k.kind == 'discr' and k.variants in ({'Ok'}, {'Continue'}) and any(
+                y.kind == 'call' and y.extra is me for y in k.expr.walk()) for k in conds)
+            flag = [k for k in conds if k.kind == 'bool' and k.expr.strip().kind == 'place' and
+                    k.expr.strip().root == ('param', 5)]
+            okf = bool(flag) and all(k.truth is True for k in flag)
+            ctx.check(okc and okf, R, b, 'source-handed-out-only-on-success-and-when-asked',
+                      'Ok(Some(src)) under merge==Ok and remove_src_if_ok',
+                      'the source track is handed out (removed from the store) on a path where the merge did not '
+                      'succeed or removal was not requested (conditions: %s)' % [str(k) for k in conds], site)
+        else:
+            ok = every_path_passes(b, me.bb, bb, [a.bb for a in adds])
+            ctx.check(ok, R, b, 'source-readded-unless-handed-out@%s' % ('err' if d[0] == 'call' else 'ok'),
+                      'add_track(src) on every path from merge_external to this exit',
+                      'on a path from merge_external to this exit (%r) the fetched source is neither re-added to the '
+                      'store nor handed out: a failed (or non-removing) owned merge loses the source track' % e, site)
+    ctx.floor(R, n, 2)
+    e = eb.place(0, ())
+    ctx.check(any(y.kind == 'agg' and y.name == 'Errors::TrackNotFound' for y in e.walk()), R, b,
+              'missing-source-reported', '', 'merge_owned does not report a missing source as TrackNotFound')
+    # the merge is requested for (dest_id, fetched source, classes, history flag)
+    a = [eb.arg(me, i).strip() for i in range(1, 5)]
+    okw = a[0].kind == 'place' and a[0].root == ('param', 2) and (a[1].has_call('pop') or a[1].has_call(
+        'fetch_tracks')) and a[2].kind == 'place' and a[2].root == ('param', 4) and a[3].kind == 'place' and \
+        a[3].root == ('param', 6)
+    ctx.check(okw, R, b, 'merge_external(dest, src, classes, history)', '%s' % a,
+              'merge_owned does not forward (dest_id, fetched source, classes, merge_history) to merge_external: %s' % a)
+    ft = b.find_calls(STORE + '::fetch_tracks')
+    okf = bool(ft) and eb.arg(ft[0], 1).has_place(root=('param', 3))
+    ctx.check(okf, R, b, 'fetches-src_id', '', 'merge_owned does not fetch exactly the source id')
